@@ -920,7 +920,7 @@ class Exec(Interp):
                 res.append((s2, tgt))
             return res
         if v[0] == 'int':
-            ty = v[1]
+            ty = t.get('ty') if t.get('ty') in INT_RANGE else v[1]      # raw switch values are written in the discriminant's own type (255 = -1i8)
             vid = v[2]
             lo, hi = self.rng(st, vid)
             d = self.idef.get(vid)
@@ -1802,6 +1802,22 @@ class Exec(Interp):
             return [(st, self.dest_top(st, fr, t))]
         if name in ('reverse', 'fill') and d.startswith('core::slice::'):
             return [(st, self.dest_top(st, fr, t))]
+        if name == 'cmp' and len(A) == 2 and not c.get('local') and ('Ord' in (tr or '') or 'cmp::impls' in d):
+            x, y = dv(A[0]), dv(A[1])
+            if x[0] == 'int' and y[0] == 'int':
+                # Ord::cmp on integers: one outcome per ordering that is possible, each refined by the comparison it implies
+                outs_ = []
+                for vn, op in (('Less', 'Lt'), ('Equal', 'Eq'), ('Greater', 'Gt')):
+                    if self.eval_cmp(st, op, x[2], y[2]) is False:
+                        continue
+                    s2 = st.copy()
+                    try:
+                        self.assume_cmp(s2, op, x[2], y[2], True)
+                    except Infeasible:
+                        continue
+                    outs_.append((s2, ('adt', 'std::cmp::Ordering', frozenset([vn]), {'Less': {}, 'Equal': {}, 'Greater': {}})))
+                if outs_:
+                    return outs_
         if name == 'next' and A and A[0][0] == 'ref' and not c.get('local'):
             # `for i in a..b`: Range<int>::next yields the current start while start < end and advances it by one; None otherwise
             cell = A[0][1]
